@@ -84,8 +84,13 @@ def fom(variant):
     memo = {}
     base = ob.FigureOfMerit
     meths = {}
-    for name in ("__init__", "initialize", "set_raw", "get_differentials", "set_model", "evaluate", "_FigureOfMerit__append"):
+    import types
+    for name in ("__init__", "initialize", "set_raw", "get_differentials", "set_model", "evaluate"):
         meths[name] = xform.transform(base.__dict__[name], ov, memo, owner=base)
+    # private helper methods (whatever they are called in the working tree) are run from the same source
+    for name, fn in base.__dict__.items():
+        if isinstance(fn, types.FunctionType) and name.startswith("_FigureOfMerit__") and name not in meths:
+            meths[name] = xform.transform(fn, ov, memo, owner=base)
     meths["sum_up_results"] = xform.transform(cls.__dict__["sum_up_results"], ov, memo, owner=cls)
     shell = meths["__init__"]._shell
 
